@@ -151,7 +151,7 @@ impl LangInterpreter for Italian {
             "sessantuno" | "sessantun" | "sessantunesim" => b.put(b"61"),
             "sessantotto" | "sessantottesim" => b.put(b"68"),
             "settanta" | "settantesim" => b.put(b"70"),
-            "settantuno" | "settantun" | "settanunesim" => b.put(b"71"),
+            "settantuno" | "settantun" | "settantunesim" | "settanunesim" => b.put(b"71"),
             "settantotto" | "settantottesim" => b.put(b"78"),
             "ottanta" | "ottantesim" | "ttanta" | "ttantesim" => b.put(b"80"),
             "ottantuno" | "ottantun" | "ottantunesim" | "ttantuno" | "ttantun" | "ttantunesim" => {
